@@ -21,7 +21,7 @@ Contents
 5. Genuine defects found on the pinned tree, their repair, the one known finding
 6. Limits, honest non-coverage, tooling limits, known false-alarm surface
 7. Interface (commands, exit codes, evidence, known findings, thorough tier)
-8. Validation of the machinery: eleven rounds of seeded mutations, controls, eleven
+8. Validation of the machinery: eleven rounds of seeded mutations, controls, twelve
    rounds of behaviour-preserving refactorings; which check catches which change;
    what was missed; false alarms met and how they were removed
 
@@ -273,7 +273,9 @@ thorough ≈ 10–20 s per property.
   each function, every release of a mutex the function locked itself finds it held,
   and no return leaves it held. *Thin atomic accessors* (`atomicOp`, round 11): a
   method of a type defined on an integer whose body is one `sync/atomic` call on the
-  receiver is that operation, its arguments in the caller's terms.
+  receiver is that operation, its arguments in the caller's terms. *Thin accessors*
+  (`thinGetter`, round 12): a method whose whole body is `return recv.f` reads as the
+  field in every access path.
 * **Effects** (`effects.go`). May a function write through a slice/map argument?
   (stores, map updates, copy/append/clear/delete, sort and `slices.*` writers,
   module callees, closures; fix-point).
@@ -372,9 +374,9 @@ refactorings after three rounds of hardening) 44 of 80 still alarmed at first, s
 the honest expectation for an unseen restructuring of an anchored function is
 "about even" - rounds 5 (46 of 80) and 6 (40 of 80) confirmed it; round 7 (31 of
 80) was better, round 8 (36 of 80, right after thirty new rules) and round 9 (40 of 80) were
-not; rounds 10 (32 of 80) and 11 (16 of 40) were better again: two in five. Of the 761 kept
-refactorings (rounds 1-11) 740 are quiet today; 21 (two of round 6, five of round 8, five of round 9,
-four of round 10, five of round 11) still alarm and are documented as open in section 8.3. The mirror and
+not; rounds 10 (32 of 80), 11 (16 of 40) and 12 (15 of 40) were better again: two in five. Of the 801
+kept refactorings (rounds 1-12) 773 are quiet today; 28 (two of round 6, five of round 8, five of round 9,
+four of round 10, five of round 11, seven of round 12) still alarm and are documented as open in section 8.3. The mirror and
 lockstep rules would fire on an asymmetric-but-equivalent rewrite of one twin.
 Refactorings that rename exported API or change a struct's field *types* are
 outside the rename normalisation.
@@ -766,6 +768,7 @@ r8='/verif/tools/round8.md'
 r9='/verif/tools/round9.md'
 r10='/verif/tools/round10.md'
 r11='/verif/tools/round11.md'
-doc=doc.replace('ROUND4_PLACEHOLDER', (open(r4).read() if os.path.exists(r4) else '(round 4 results pending)') + '\n' + (open(r5).read() if os.path.exists(r5) else '') + '\n' + (open(r6).read() if os.path.exists(r6) else '') + '\n' + (open(r7).read() if os.path.exists(r7) else '') + '\n' + (open(r8).read() if os.path.exists(r8) else '') + '\n' + (open(r9).read() if os.path.exists(r9) else '') + '\n' + (open(r10).read() if os.path.exists(r10) else '') + '\n' + (open(r11).read() if os.path.exists(r11) else ''))
+r12='/verif/tools/round12.md'
+doc=doc.replace('ROUND4_PLACEHOLDER', (open(r4).read() if os.path.exists(r4) else '(round 4 results pending)') + '\n' + (open(r5).read() if os.path.exists(r5) else '') + '\n' + (open(r6).read() if os.path.exists(r6) else '') + '\n' + (open(r7).read() if os.path.exists(r7) else '') + '\n' + (open(r8).read() if os.path.exists(r8) else '') + '\n' + (open(r9).read() if os.path.exists(r9) else '') + '\n' + (open(r10).read() if os.path.exists(r10) else '') + '\n' + (open(r11).read() if os.path.exists(r11) else '') + '\n' + (open(r12).read() if os.path.exists(r12) else ''))
 open('/verif/DESIGN.md','w').write(doc)
 print(len(doc.splitlines()),'lines')
